@@ -87,6 +87,10 @@ class Harness:
         self._listing_cache: dict[str, str] = {}
         from jasm import global_definitions as gd  # noqa
         from jasm.match import MasterOfPuppets
+        import logging
+        lg = logging.getLogger("jasm.logging_config")
+        if not any(isinstance(x, logging.NullHandler) for x in lg.handlers):
+            lg.addHandler(logging.NullHandler())   # keep logger.error() lines of expected failures off our stderr
         self.gd = gd
         self.MasterOfPuppets = MasterOfPuppets
 
